@@ -50,13 +50,15 @@ PROPS = {
             "technique": "bounded exhaustive run-time check of the six sparse/dense converters and transform over all valid sparse outputs x index types; "
                          "the two NumPy labelling loops (ChangeDetector.sparse_to_dense, SubsetCollectiveAnomalyDetector.sparse_to_dense) are "
                          "additionally under contract (own AST->VC generator, z3/cvc5) with the pandas accessors around them assumed, and so is "
-                         "BaseDetector.transform for PELT, SeededBinarySegmentation and MVCAPA (converter preconditions discharged from the C04 posts, lemma L_chain)",
+                         "BaseDetector.transform for PELT, SeededBinarySegmentation, MovingWindow (threshold >= 0), MVCAPA, and (around the assumed pandas interval converter) CAPA and "
+                         "CircularBinarySegmentation (converter preconditions discharged from the C04 posts, lemma L_chain)",
             "level_text": "Every valid sparse output for n<=5 (thorough 7), all index types of the quantifier and column labels; round trip and positional "
                           "labelling (bounded). Proved for all inputs on the real code: position t gets the number of changepoints <= t "
                           "(ChangeDetector.sparse_to_dense); cell (t, c) gets label a+1 iff t lies in anomaly a and c is one of its columns, 0 elsewhere "
-                          "(SubsetCollectiveAnomalyDetector.sparse_to_dense); BaseDetector.transform of PELT, SeededBinarySegmentation and MVCAPA (16 penalty kinds) "
-                          "returns exactly that labelling of THIS call's predict(X), one row per row of X, for arbitrary (uninterpreted) index labels. The other "
-                          "four converters and the transform of the remaining detectors are pandas label/position glue: "
+                          "(SubsetCollectiveAnomalyDetector.sparse_to_dense); BaseDetector.transform of PELT, SeededBinarySegmentation, MovingWindow (non-negative threshold) and MVCAPA (16 penalty kinds) "
+                          "returns exactly that labelling of THIS call's predict(X), one row per row of X, for arbitrary (uninterpreted) index labels; for CAPA and "
+                          "CircularBinarySegmentation the same is proved around an ASSUMED contract of the pandas interval converter. The other "
+                          "four converters and the anomaliser's transform are pandas label/position glue: "
                           "run-time only. The claim stays at the bounded level because the index/label clauses are decided by the bounded tier alone.",
             "level_note": "pandas semantics (frame column access, IntervalIndex left/right/closed, len(index), DataFrame constructor) is assumed in the two "
                           "proved loops and trusted elsewhere"},
